@@ -781,10 +781,17 @@ def _one_pass(ctx: Ctx, g: Gen, r, sizes, first: bool):
     pool += must[: n_butler // 2] + other[: n_butler - min(len(must), n_butler // 2)]
     seen, wl = set(), []
 
+    trees = {c["s"]: rec.get("tree") for c, rec in zip(cases, recs) if rec is not None}
+
     def light(c):
         # the conversion to conjunctive normal form is exponential in nested NOT/AND/OR; keep the strings sent through
-        # a real Butler small enough that resource exhaustion (a C15/C05 matter) does not dominate the run
-        return c["kind"] in ("corpus", "replay") or len(re.findall(r"(?i)\b(and|or)\b", c["s"])) <= 4
+        # a real Butler small enough that resource exhaustion (a C15/C05 matter) does not dominate the run: at most four
+        # AND/OR operators and a conjunctive normal form, computed the way Predicate does, of at most 400 OR-groups at every
+        # sub-expression (seed 3 generated NOT ((a AND x IN (4 items)) OR (NOT t IN (2 items) AND b AND c)): 8 groups of sizes
+        # 2,2,2,2,5,5,5,5, negated = 10 000 groups; SQLite answers "Expression tree is too large" after 55 s per query)
+        if c["kind"] in ("corpus", "replay"):
+            return True
+        return len(re.findall(r"(?i)\b(and|or)\b", c["s"])) <= 4 and _nf_size(trees.get(c["s"])) <= 400
     for c in pool:
         if c["s"] not in seen and "\x00" not in c["s"] and light(c):
             seen.add(c["s"])
@@ -810,6 +817,8 @@ def _one_pass(ctx: Ctx, g: Gen, r, sizes, first: bool):
             s = c["s"]
             ctx.count()
             slow.append((rec.get("seconds", 0), s))
+            if rec.get("seconds", 0) >= 20:
+                ctx.log("slow where string (%s): %r" % (", ".join(f"{a} {rec[a].get('seconds')}s {'ok' if rec[a].get('ok') else rec[a].get('type')}" for a in ("query_data_ids", "query_dimension_records", "legacy")), s))
             prec = parsed.get(s, {})
             for api in ("query_data_ids", "query_dimension_records"):
                 o = rec[api]
@@ -833,7 +842,7 @@ def _one_pass(ctx: Ctx, g: Gen, r, sizes, first: bool):
                                 "legacy registry.queryDataIds did not report a syntax error as a user expression error")
     slow.sort(reverse=True)
     ctx.log(f"butler: {len(wl)} where strings through 3 query interfaces; total {sum(t for t, _ in slow):.0f} s of queries, slowest "
-            + "; ".join(f"{t:.1f}s {s_[:60]!r}" for t, s_ in slow[:3]))
+            + "; ".join(f"{t:.1f}s (cnf {_nf_size(trees.get(s_))}) {s_[:80]!r}" for t, s_ in slow[:3]))
 
 
 # --------------------------------------------------------------------------------------------------
@@ -921,6 +930,50 @@ def crid(r) -> str:
     if k == "seq":
         return f"(Some (RSeq {clist(cvalue(v) for v in r[1])}))"
     return "(Some ROther)"
+
+
+def _nf_size(t, cap=400):
+    """number of OR-groups of the conjunctive normal form that Predicate.logical_and / logical_or / logical_not build for a
+    parse tree (JSON encoding), computed the way the implementation does it (no simplification): a CNF is a list of group
+    sizes; AND concatenates, OR takes all pairs, NOT of groups of sizes s1..sk gives s1*...*sk groups of size k; an IN list of
+    n items is one group of n leaves.  Returns cap + 1 as soon as any intermediate form exceeds cap groups."""
+    class Big(Exception):
+        pass
+
+    def chk(g):
+        if len(g) > cap:
+            raise Big
+        return g
+
+    def go(t):
+        if not isinstance(t, list) or not t:
+            return [1]
+        k = t[0]
+        if k == "Parens":
+            return go(t[1])
+        if k == "Unary" and t[1] == "NOT":
+            g = go(t[2])
+            n = 1
+            for x in g:
+                n *= x
+                if n > cap:
+                    raise Big
+            return chk([len(g)] * n)
+        if k == "IsIn":
+            n = max(1, len(t[2]))
+            return [1] * n if t[3] else [n]
+        if k == "Binary" and t[2] in ("AND", "OR"):
+            a, b = go(t[1]), go(t[3])
+            if t[2] == "AND":
+                return chk(a + b)
+            if len(a) * len(b) > cap:
+                raise Big
+            return chk([x + y for x in a for y in b])
+        return [1]
+    try:
+        return len(go(t))
+    except Big:
+        return cap + 1
 
 
 def _range_members(start, stop, step):
